@@ -2,6 +2,8 @@ import ClaripyProofs.Lemmas.Solver.Independent
 import ClaripyProofs.Lemmas.Solver.Extrema
 import ClaripyProofs.Lemmas.Solver.CompositeHistory
 import ClaripyProofs.Lemmas.Solver.CompositeQuery
+import ClaripyProofs.Lemmas.Solver.CompositeQueries
+import ClaripyProofs.Lemmas.Solver.CompositeReabsorb
 /-!
 # C12 — SolverComposite answers like a monolithic solver
 
@@ -169,6 +171,28 @@ theorem C12_is_false_correct (H : SolverHyps R RE E) {U : List Con} {Us : List (
     (c : Con) (extra : List Con) : JudgeOrGiveUp E U (.isFalse c extra) (compStep E s (.isFalse c extra)).1 :=
   compTruth_judge H h false c extra
 
+/-- **`batch_eval(es, n)` of the composite answers for ALL the constraints added** (registered symbolic expressions, no extra
+constraints), in any state satisfying the invariant: the generic query theorem `compQuery_judge` (the shape `_ensure_sat`, merged
+solver, the child's answer, `_reabsorb_solver`) with the footprint of the child's `batch_eval` (`child_batchEval_foot`) and the
+transfer of tuples (`Equi.judge_batchEval`). -/
+theorem C12_batch_eval_correct (H : SolverHyps R RE E) {U : List Con} {Us : List (List Con)} {s : CSt} (h : CInv R RE E U Us s)
+    (es : List Exp) (n : Nat) (hne : es ≠ []) (hes : ∀ e ∈ es, RE e ∧ e.conc = none) (hn : 1 ≤ n) :
+    JudgeOrGiveUp E U (.batchEval es n []) (compStep E s (.batchEval es n [])).1 :=
+  compBatchEval_judge H h es n hne hes hn
+
+/-- **`solution(e, x)` of the composite answers for ALL the constraints added** (registered symbolic `e`, an integer `x` in range,
+no extra constraints): footprint `child_solution_foot`, transfer `Equi.judge_solution` -/
+theorem C12_solution_correct (H : SolverHyps R RE E) {U : List Con} {Us : List (List Con)} {s : CSt} (h : CInv R RE E U Us s)
+    (e : Exp) (x : Nat) (he : RE e) (hc : e.conc = none) (hx : x < 2 ^ e.bits) :
+    JudgeOrGiveUp E U (.solution e x []) (compStep E s (.solution e x [])).1 :=
+  compSolution_judge H h e x he hc hx
+
+/-- the footprints of the child calls used (`variables` / `constraints` unchanged, cached models stay over the variables) -/
+theorem C12_child_footprint_batch_solution (H : SolverHyps R RE E) (G : St → Prop) (U : List Con) :
+    (∀ es n extra s, SI R RE E G U s → FootQ s ((childOps E).batchEval es n extra s).2) ∧
+    (∀ e x extra s, SI R RE E G U s → FootQ s ((childOps E).solution e x extra s).2) :=
+  ⟨fun es n extra s hs => child_batchEval_foot H es n extra s hs, fun e x extra s hs => child_solution_foot H e x extra s hs⟩
+
 /-- `_reabsorb_solver(m)` does not raise when every variable of `m` is a key of `_solvers` (`split()` of the temporary child
 succeeds; the least variable of every part is a key) -/
 theorem C12_reabsorb_never_raises (H : SolverHyps R RE E) {Us : List (List Con)} {s : CSt} (hw : TInvS R RE E Us s.w)
@@ -193,6 +217,19 @@ example : JudgeOrGiveUp cEnv (usersAfterOps [] [.add [cCon], .satisfiable [], .a
       simp only [List.mem_cons, List.not_mem_nil, or_false] at hop
       rcases hop with rfl | rfl | rfl <;> simp [cCompHist]))
     _ ⟨rfl, rfl, by decide, rfl⟩
+
+/-- **any history of `add` / `satisfiable()` followed by one query** — `eval`, `batch_eval`, `solution` without extra constraints,
+`is_true` / `is_false` with any -/
+theorem C12_value_query_after_history_partial (H : SolverHyps R RE E) (track : Bool) (hist : List Op)
+    (hok : ∀ op ∈ hist, InScopeCP R op) (op : Op) (hop : InScopeCQ2 RE op) :
+    JudgeOrGiveUp E (usersAfterOps [] hist) op
+      (compStep E (compRun E { c := { track := track }, w := { fes := [] } } hist) op).1 := by
+  obtain ⟨Us', hinv⟩ := comp_hist_inv H hist _ [] [] (cinv_init R RE E track) hok
+  exact comp_query_step2 H hinv op hop
+
+/-- non-vacuity: constrain, ask, pin, then `batch_eval` / `solution` of the variable -/
+example : InScopeCQ2 cRE (.batchEval [cExp] 2 []) ∧ InScopeCQ2 cRE (.solution cExp 1 []) :=
+  ⟨⟨by simp, fun e he => by simp at he; subst he; exact ⟨rfl, rfl⟩, by decide, rfl⟩, ⟨rfl, rfl, by decide, rfl⟩⟩
 
 /-! ### `simplify` does NOT keep the partition (the code as written; answers are not affected)
 
@@ -228,20 +265,107 @@ theorem C12_simplify_breaks_partition :
     childrenOverlap (stateAfter sEnv {} [.add [sCxy], .add [sCz], .simplify, .add [sLink]]) = true ∧
     childrenOverlap (stateAfter sEnv {} [.add [sCxy], .add [sCz], .add [sLink]]) = false := by decide +kernel
 
+/-- towards `_reabsorb_solver`, case `len(parts) == len(old)`: **a model that `update` hands to an old child is a model of that
+child's constraints** — it is the restriction to the part's variables of a model `m` of all the merged constraints `Um` (which imply
+the child's `Ut`), and `update` accepts it only when its key set is the child's variable set, so it agrees with `m` wherever `Ut`
+looks.  No assumption on how the parts relate to the old children ("every child is connected" is not needed). -/
+theorem C12_update_accepts_valid (dflt : Var → Nat) {Um Ut : List Con} (hwf : ∀ c ∈ Ut, ConWf c) (tvars pvars : List Var)
+    (hvars : ∀ v ∈ varsOf Ut, v ∈ tvars) (himp : ∀ a, Models Um a → Models Ut a) (m : PModel)
+    (hm : Models Um (m.complete dflt)) (hacc : sameSet (modelKeys (m.restrict pvars)) tvars = true) :
+    Models Ut ((m.restrict pvars).complete dflt) :=
+  update_accepts_valid dflt hwf tvars pvars hvars himp m hm hacc
+
+/-- non-vacuity: the model `{x: 5, y: 7}` of `[x == 5, y-tautology]`, the part `{x}`, the child `x == 5` over `{x}` -/
+example : sameSet (modelKeys (PModel.restrict [(0, 5), (1, 7)] [0])) [0] = true := by decide
+
+/-! ### `_reabsorb_solver` does NOT re-establish `CInv` as it is stated (the invariant is too strong on a record nobody uses)
+
+`CInv.kids` demands the C11 invariant of EVERY record of the world of children, the parts that `split()` creates inside
+`_reabsorb_solver` included.  `ModelCacheMixin.split` gives a part the filtered models of the solver that was split — replacing what
+the part's own `add` cached.  A part whose only constraint is `BVS == BVV` got, from `_trivial_model_optimization` in that `add`, the
+five exhausted-markers for the variable AND the trivial model; after the replacement it keeps the markers, and holds no model at all
+when the split solver had none (the merged solver answered without a Z3 model to cache: `solution()` answered `False` here).  C11's
+`MCInv` reads a marker as "every feasible value is the value of a cached model": false for that record.  The real class is not
+wrong about anything: every use of a marker is guarded by `len(results) > 0` / `len(cached) > 0` (batch_eval, min, max), and in this
+history the part is garbage (with `len(parts) == len(old)` its models / markers are `update`d into the old child, which has the
+marker and the trivial model already).  Reproduced on the real class with `_model_hook` silenced (design_notes/C12.md).
+What the next round needs: the marker clauses of `MCInv` under the guard `models ≠ []` (a change of the C11 invariant), or `CInv`
+speaking only about records reachable from `_solvers`. -/
+
+def wCx : Con := { id := 1, vars := [0], sem := fun a => decide (a 0 = 5), triv := some (0, 5, 100) }
+/-- a constraint on `y` that every value satisfies (so that Z3 need not mention `y` in a model) -/
+def wCy : Con := { id := 2, vars := [1], sem := fun _ => true }
+/-- the expression `BVS x` -/
+def wX : Exp := { id := 100, bits := 8, vars := [0], val := fun a => a 0 }
+/-- an expression over `x` and `y` -/
+def wE : Exp := { id := 7, bits := 8, vars := [0, 1], val := fun a => a 0 }
+def wA0 : Asg := fun v => if v = 0 then 5 else 0
+/-- Z3 answers every query of the run exactly (`sat` with the model `x = 5`, which mentions `x` only; `unsat` for `x == 7`); the set of
+the two children is listed `y`-child first -/
+def wEnv : Env :=
+  { dflt := fun _ => 0, oracle := fun q _ => if q.holds wA0 then .sat [5, 0] [0] else .unsat [],
+    build := fun _ => default, falseCon := default,
+    cheapFalse := fun _ _ _ => false, truth := fun _ _ _ => false,
+    simp := fun cs _ => cs, pick := fun all n _ => (all.take n).reverse }
+
+def wHist : List Op := [.add [wCx], .add [wCy], .solution wE 7 []]
+
+/-- record 5 of the world (the part for `x` that `split()` made inside `_reabsorb_solver`): no cached model, an eval-exhausted
+marker, one constraint, which `x = 5` satisfies; the children `_solvers` points to are records 1 and 3 -/
+def wCheck (s : CSt) : Bool :=
+  decide (5 < s.w.fes.length) && (s.w.fes.getD 5 {}).models.isEmpty && (s.w.fes.getD 5 {}).evalExh == [100] &&
+  (match (s.w.fes.getD 5 {}).constraints with | [c] => c.sem wA0 | _ => false) && s.c.solverList == [1, 3]
+
+theorem test_wCheck : wCheck (stateAfter wEnv {} wHist) = true := by decide +kernel
+
+/-- **witness**: after `add(x == 5)`, `add(<tautology about y>)`, `solution(<x, y>, 7)` the state satisfies `CInv` for NO choice of
+the ghost lists, whatever registry contains the expression `BVS x` -/
+theorem C12_reabsorb_breaks_CInv_as_stated (R : Con → Prop) (RE : Exp → Prop) (hRE : RE wX) (U : List Con) (Us : List (List Con)) :
+    ¬ CInv R RE wEnv U Us (stateAfter wEnv {} wHist) := by
+  intro h
+  have hchk := test_wCheck
+  generalize stateAfter wEnv {} wHist = s at h hchk
+  simp only [wCheck, Bool.and_eq_true, decide_eq_true_eq, List.isEmpty_iff, beq_iff_eq] at hchk
+  obtain ⟨⟨⟨⟨hlt, hmod⟩, hexh⟩, hcons⟩, _⟩ := hchk
+  have hsi := h.kids.each 5 hlt
+  have hfe : (stOfI s.w 5).fe = s.w.fes.getD 5 {} := rfl
+  have hm : Models (Us.getD 5 []) wA0 := by
+    refine (hsi.base.models_iff wA0).mp ?_
+    rw [hfe]
+    split at hcons
+    · rename_i c hc
+      rw [hc]
+      intro c' hc'
+      simp only [List.mem_singleton] at hc'
+      subst hc'; exact hcons
+    · cases hcons
+  obtain ⟨m, hmem, _⟩ := hsi.mc.evalExh wX hRE (by rw [hfe, hexh]; simp [wX]) (wX.val wA0) ⟨wA0, hm, rfl⟩
+  rw [hfe, hmod] at hmem
+  cases hmem
+
+/-- the answers of that history are the right ones -/
+theorem test_wAnswers : (runComp wEnv {} [] wHist).map (·.2.2) = [.cons [1], .cons [2], .bool false] := by decide +kernel
+
 /-- **The full statement**: every history of public calls on a CompositeFrontend (hence, with the mixin layers of C11 on top, on
 a SolverComposite) is answered as the property statement demands for all the constraints added.  Proved: `C12_composite_partial`
 (whole histories of add / satisfiable()), with `combine` proved (`C12_combine_correct`, no hypothesis left), and
 `C12_query_after_history_partial` (such a history followed by ONE `eval` without extra constraints or `is_true` / `is_false` with
-any).  Missing:
-  * `_reabsorb_solver` RE-ESTABLISHES the invariant `CInv` (proved: it does not raise, `C12_reabsorb_never_raises`): `split()` of
-    the temporary merged child gives back the old children exactly when every child is connected (then `update` only adds cached
-    models over the child's variables — the parts carry no exhausted-markers, being blank copies), else the parts replace them;
-    needs the connectivity of children as an invariant or the replacement case of `cinv_install`.  Until then a query cannot be
-    followed by further calls in the theorems, and the value queries with EXTRA constraints are open (`_ensure_sat(extra)`
-    reabsorbs before the query);
-  * `batch_eval`, `min`, `max`, `solution`: the same proof as `C12_eval_correct` (the transfer `Equi` carries `Feasible`, hence
-    `IsOpt` and `FeasibleT`; `C12_optimum_component`) once the footprint of those child calls (`variables` unchanged — proved for
-    `eval` and `check_satisfiability` in `C12_child_footprint`) is proved, which `_reabsorb_solver` needs in order not to raise;
+any).  Also proved: `C12_batch_eval_correct`, `C12_solution_correct` (one such query in any state satisfying `CInv`;
+`C12_value_query_after_history_partial`).  Missing:
+  * calls AFTER a value query, and the value queries with EXTRA constraints (`_ensure_sat(extra)` reabsorbs before the query):
+    `_reabsorb_solver` does not raise (`C12_reabsorb_never_raises`) but does NOT re-establish `CInv` as stated —
+    `C12_reabsorb_breaks_CInv_as_stated`: a part made by `split()` keeps the exhausted-markers of `_trivial_model_optimization`
+    while `ModelCacheMixin.split` replaces its models (by none, when the split solver cached none); C11's `MCInv` is false for such
+    a record although the code guards every use of a marker by "some cached value".  Needed first: `MCInv`'s marker clauses under
+    the guard `models ≠ []` (C11 files), or `CInv.kids` restricted to the records `_solvers` reaches.  Then: in the case
+    `len(parts) == len(old)` `update` adds to the old child `t` only models whose key set is `t.variables` — restrictions of models of
+    the merged solver, valid for `t` because they agree with such a model on `t.variables` (no connectivity of children needed) — and
+    the markers of the part, which are those of a single `BVS == BVV` constraint `t` holds too; in the other case the parts replace
+    the children (`cinv_install` for several children at once; needs "no constraint without variables in a child", else the
+    `CONCRETE` part of `split()` is dropped);
+  * `min`, `max`: as `C12_batch_eval_correct` through `compQuery_judge` (the transfer `Equi` carries `Feasible`, hence `IsOpt`) once
+    the footprint of the child's `min` / `max` is proved: `FullFrontend.min/max` call `self.satisfiable` / `self.eval` (the footprint
+    of the whole class one stage down) and `_extrema`, for which only a specification under `satisfiable` exists (`z3Extrema_spec`);
   * `simplify` (a child's `variables` may keep a variable its constraints lost: `ExactVars` fails, see design_notes/C12.md),
     `branch` / pickling of the composite (children shared copy-on-write between composites);
   * the mixins of class SolverComposite above CompositeFrontend, CompositedCacheMixin among them. -/
